@@ -470,7 +470,63 @@ func runFed(events, history int, dels []string, fail int) []string {
 	return []string{"first=" + a, "late=" + b, q}
 }
 
+// runFedStop: the hub stops (context cancelled) in the middle of a burst; the stores keep emitting, the
+// delivery goroutines keep calling hub.Dispatch / hub.Delete, a late Sync and a late join arrive: none of it
+// may block or panic, and what the attached monitor got before the stop is a prefix of the burst.
+func runFedStop(events int) []string {
+	ctx, cancel := context.WithCancel(context.Background())
+	host := extension.NewHost()
+	hub := msghub.New(5, host)
+	stopped := make(chan struct{})
+	go func() { hub.Start(ctx); close(stopped) }()
+	first := &mock{fail: -1}
+	hub.AddListener(first)
+	syncWait(hub, syncDeadline)
+	emit := func(from, to int) bool {
+		return within(3*syncDeadline, func() {
+			for i := from; i < to; i++ {
+				host.Events.AfterMessageStored.Emit(&event.MessageMetadata{Mailbox: "box", ID: strconv.Itoa(100 + i)})
+				if i%3 == 0 {
+					host.Events.AfterMessageDeleted.Emit(&event.MessageMetadata{Mailbox: "box", ID: strconv.Itoa(100 + i)})
+				}
+			}
+		})
+	}
+	ok := emit(0, events/2)
+	cancel()
+	<-stopped
+	ok = emit(events/2, events+150) && ok // more than the op queue holds
+	ok = within(syncDeadline, hub.Sync) && ok
+	ok = within(syncDeadline, func() { hub.AddListener(&mock{fail: -1}); hub.RemoveListener(first) }) && ok
+	time.Sleep(50 * time.Millisecond) // the delivery goroutines have consumed what was pending (or are stuck: next case would show)
+	first.mu.Lock()
+	rec := append([]evt(nil), first.rec...)
+	first.mu.Unlock()
+	// stored events seen: a prefix of 100, 101, …
+	n := 0
+	inOrder := true
+	for _, e := range rec {
+		if !e.del {
+			if e.id != strconv.Itoa(100+n) {
+				inOrder = false
+			}
+			n++
+		}
+	}
+	r := "ok"
+	if !ok {
+		r = "blocked"
+	}
+	if !inOrder {
+		r = "disorder"
+	}
+	return []string{r}
+}
+
 func exec(kind string, in []string) []string {
+	if kind == "fedstop" {
+		return runFedStop(vh.AtoI(in[0]))
+	}
 	if kind == "fed" {
 		var dels []string
 		if in[2] != "-" {
